@@ -265,6 +265,14 @@ type Frame struct {
 	loopChain  map[*ssa.BasicBlock][]*ssa.BasicBlock
 	loopEntry  map[*ssa.BasicBlock]*State
 	rangeIdxFn map[int]string
+	curIns     ssa.Instruction     // instruction being executed
+	dbgAll     map[string][]dbgRec // every value reference of a source variable, with its position
+}
+
+type dbgRec struct {
+	v   Val
+	blk *ssa.BasicBlock
+	idx int
 }
 
 type loopFrameRec struct {
@@ -399,6 +407,9 @@ func (fr *Frame) computeAnchors() {
 				if st := structOf(fa.X.Type()); st != nil {
 					add(in, "store "+structKey(fa.X.Type())+"."+st.Field(fa.Field).Name())
 				}
+			}
+			if g, ok := in.Addr.(*ssa.Global); ok {
+				add(in, "store global "+shortPkgDot(g.Pkg.Pkg.Path())+g.Name())
 			}
 		case *ssa.MapUpdate:
 			add(in, "mapupdate")
@@ -563,6 +574,16 @@ func (r *Run) requireGF(st *State, kind, fname, name string, cond, fact string, 
 	if cond == "true" || st.pc == "false" {
 		if fact != "true" && st.pc != "false" {
 			r.facts.Assert(sImp(st.pc, fact))
+		}
+		if cond == "true" && st.pc != "false" && r.dry == 0 && (kind == "assert" || kind == "ensures") {
+			// syntactically true after simplification: still counted, so evidence lists it
+			full := fname + "/" + kind + "/" + name
+			r.oblNames[full]++
+			if n := r.oblNames[full]; n > 1 {
+				full = fmt.Sprintf("%s~%d", full, n)
+			}
+			r.obls = append(r.obls, &Obligation{Name: full, Kind: kind, Func: fname, Tags: tags, Pos: r.eng.pos(pos), Text: text,
+				NFacts: r.facts.Len(), Pc: st.pc, Goal: "true"})
 		}
 		return
 	}
@@ -834,6 +855,7 @@ func (fr *Frame) runBlocks(order []*ssa.BasicBlock, in map[*ssa.BasicBlock][]*St
 				continue
 			}
 			fr.scope = fr.innerLoop[b]
+			fr.curIns = ins
 			if !fr.step(st, ins) {
 				alive = false
 				break
